@@ -35,6 +35,11 @@
     ThreadPool(0, m): m gated jobs, wait until all workers are idle, startAWorker() x k and
     adjustPoolsize(min=max): `pool.workers` and the number of live pool threads (counted by a
     threadFactory wrapper) never exceed max; after lowering max the pool comes down to it.
+Application code re-enters and misbehaves: in (a) the 3rd task submits a child task from inside the
+worker (accepted -> must run once; after quit -> AlreadyQuit); in (b) tasks submit a child from the
+task body or from onResult, onResult callbacks raise (Exception and SystemExit) after recording, and
+30 % of the pools get a second burst after a resize (left-over state).  Exactly-once applies to
+children and to tasks whose onResult raised alike.
 Guards: ThreadPool documents that callInThread/stop come from one thread - submitters are joined
 before stop() is called; transient excess after LOWERING max is legitimate (compared against the
 largest max so far); max >= 1 always (max 0 = "no worker can be created"); a stop() or a gate that
@@ -61,6 +66,7 @@ FLOORS = {"explore_states": 5000, "quiescence_checks": 5000, "quit_quiescence_ch
           "worker_creations_checked": 2000, "stranded_task_cases": 10, "post_quit_probes": 100,
           "pools": 40, "pool_tasks_run": 5000, "pool_onresult": 5000, "pool_stops": 40, "gate_phases": 5, "yields_injected": 2000,
           "pool_tasks_failed_as_planned": 500, "pool_pre_start_tasks": 50, "pool_tasks_raised_baseexception": 500,
+          "pool_reentrant_submissions": 300, "pool_onresult_raised": 300, "pool_second_bursts": 10, "tasks_submitted_from_a_task": 1000,
           "real_creator_cases": 5000, "real_creator_creations_checked": 5000, "scripted_pools": 18, "scripted_limit_checks": 50}
 WATCHDOG_S = {"quick": 900, "thorough": 3000}
 READY = True
@@ -75,7 +81,9 @@ def _base_kinds():
 
 
 BASE_KINDS = _base_kinds()
-TASK_KINDS = ["ok"] * 8 + ["raise"] * 4 + ["yield"] * 4 + list(BASE_KINDS)  # 20 % of the failing tasks raise a non-Exception BaseException
+# 20 % of the tasks raise a non-Exception BaseException; spawn/ospawn submit a child task from inside the
+# task body / the onResult callback; oraise/obase: the onResult callback itself raises after recording
+TASK_KINDS = ["ok"] * 8 + ["raise"] * 4 + ["yield"] * 4 + list(BASE_KINDS) + ["spawn", "ospawn", "oraise", "obase"]
 MAX_LIMIT = 2
 BUDGET = 2  # grow / shrink / limit-change actions allowed per history (each)
 
@@ -109,8 +117,8 @@ def _has(cell):
 
 
 class Task:
-    def __init__(self, world, i, raises):
-        self.world, self.i, self.raises = world, i, raises
+    def __init__(self, world, i, raises, spawns=False):
+        self.world, self.i, self.raises, self.spawns = world, i, raises, spawns
         self.runs = 0
         self.accepted = False
 
@@ -122,6 +130,18 @@ class Task:
             w.bad("task-ran-twice", "a task body ran more than once", task=self.i)
         if w.running_on is None:
             w.bad("task-ran-outside-worker", "a task body ran outside a worker's perform()", task=self.i)
+        if self.spawns and self.runs == 1:
+            # application code re-entering the Team from inside a worker: submit a child task
+            from twisted._threads import AlreadyQuit
+
+            child = Task(w, len(w.tasks), False)
+            w.tasks.append(child)
+            try:
+                w.team.do(child)
+                child.accepted = True
+                w.ctx.count("tasks_submitted_from_a_task")
+            except AlreadyQuit:
+                w.ctx.count("task_submissions_refused_after_quit")
         if self.raises:
             raise RuntimeError("task %d fails on purpose" % self.i)
 
@@ -193,6 +213,7 @@ class TeamWorld:
         self.coord, self._coord_perform = createMemoryWorker()
         self.workers = []
         self.tasks = []
+        self.n_do = 0
         self.limit = 1
         self.budget = {"grow": BUDGET, "shrink": BUDGET, "limit": BUDGET}
         self.quit_called = False
@@ -256,8 +277,9 @@ class TeamWorld:
             return
         acts = []
         if not self.quit_called:
-            if len(self.tasks) < MAX_TASKS:
-                acts.append(("do", "raise" if len(self.tasks) % 2 else "ok"))  # task 1 raises, 0 and 2 succeed
+            if self.n_do < MAX_TASKS:
+                # 1st task succeeds, 2nd raises, 3rd submits a child task from inside the worker
+                acts.append(("do", ("ok", "raise", "spawn")[min(self.n_do, 2)]))
             if self.budget["grow"]:
                 acts += [("grow", 1), ("grow", 2)]
             if self.budget["shrink"]:
@@ -274,7 +296,7 @@ class TeamWorld:
         t = self.team
         self._state = (
             self.limit, self.quit_called, self.probed, self.logged, tuple(sorted(self.budget.items())), bool(self.retired_with_backlog),
-            tuple((x.raises, x.runs, x.accepted) for x in self.tasks),
+            self.n_do, tuple((x.raises, x.spawns, x.runs, x.accepted) for x in self.tasks),
             tuple(sorted(x.slot for x in t._idle)), t._busyCount, tuple(_fp(p) for p in t._pending), t._toShrink,
             t._shouldQuitCoordinator, t._quit.isSet, self.coord._quit.isSet,
             tuple("NoMore" if _is_nomore(p) else _fp(p) for p in self.coord._pending),
@@ -308,7 +330,8 @@ class TeamWorld:
 
         kind = a[0]
         if kind == "do":
-            t = Task(self, len(self.tasks), a[1] == "raise")
+            t = Task(self, len(self.tasks), a[1] == "raise", spawns=(a[1] == "spawn"))
+            self.n_do += 1
             self.tasks.append(t)
             self._guard(lambda: self.team.do(t), "Team.do")
             t.accepted = True
@@ -478,6 +501,7 @@ class PoolMonitor:
         self.over = []  # (task id, running, max_ever) at entry
         self.after_stop_runs = 0
         self.stopped = False
+        self.spawned = 0
 
 
 def run_pool_case(ctx, case, inj_codes):
@@ -494,9 +518,10 @@ def run_pool_case(ctx, case, inj_codes):
     adjust = rng.random() < 0.4
     lower = adjust and rng.random() < 0.4
     gate = rng.random() < 0.3
+    two_bursts = rng.random() < 0.3
     p_yield = rng.choice([0.05, 0.15, 0.4])
     cfg = {"case": case, "min": mn, "max": mx, "submitters": n_sub, "tasks": n_tasks, "pre_start": pre_start, "adjust": adjust,
-           "may_lower_max": lower, "gate": gate, "p": p_yield}
+           "may_lower_max": lower, "gate": gate, "two_bursts": two_bursts, "p": p_yield}
     mon = PoolMonitor()
     mon.max_ever = mx
 
@@ -513,6 +538,8 @@ def run_pool_case(ctx, case, inj_codes):
     planned = {}
 
     def make(tid, kind):
+        spawning_body = None
+
         def body():
             with mon.lock:
                 mon.body_runs[tid] = mon.body_runs.get(tid, 0) + 1
@@ -540,9 +567,32 @@ def run_pool_case(ctx, case, inj_codes):
         def on_result(ok, value):
             with mon.lock:
                 mon.results.setdefault(tid, []).append((ok, value))
+            if kind == "ospawn":
+                spawn(("oc",) + tid)
+            elif kind == "oraise":
+                raise ValueError("onResult of %r fails on purpose" % (tid,))
+            elif kind == "obase":
+                raise SystemExit(5)  # onResult raising a BaseException-only class: the worker must survive
 
-        planned[tid] = kind
-        return on_result, body
+        with mon.lock:
+            planned[tid] = kind
+        if kind == "spawn":
+            spawning_body = make_spawning(tid, body)
+        return on_result, (spawning_body if kind == "spawn" else body)
+
+    def spawn(child_tid):
+        # application code re-entering the pool from a pool thread (task body / onResult)
+        submit(child_tid, "ok")
+        with mon.lock:
+            mon.spawned += 1
+            mon.cond.notify_all()
+
+    def make_spawning(tid, body):
+        def spawning_body():
+            r = body()
+            spawn(("c",) + tid)
+            return r
+        return spawning_body
 
     def submit(tid, kind):
         on_result, body = make(tid, kind)
@@ -589,6 +639,23 @@ def run_pool_case(ctx, case, inj_codes):
             t.join(60)
             if t.is_alive():
                 problems.append("a submitter thread did not finish within 60 s")
+        # every task that re-enters the pool must have done so before stop() (a submission racing
+        # with stop() may legitimately be dropped); event-synchronised, INCONCLUSIVE on time-out
+        n_spawners = sum(1 for pl in plans for k_ in pl if k_ in ("spawn", "ospawn"))
+        with mon.lock:
+            if not mon.cond.wait_for(lambda: mon.spawned >= n_spawners, timeout=60):
+                problems.append("re-entrant submissions did not all happen within 60 s (%d/%d)" % (mon.spawned, n_spawners))
+        ctx.count("pool_reentrant_submissions", n_spawners)
+        if two_bursts and not problems:
+            # state left over from the first burst: same pool, resized, second burst from this thread
+            new_max = max(1, mx + rng.choice([-1, 0, 1]))
+            with mon.lock:
+                mon.max_ever = max(mon.max_ever, new_max)
+            pool.adjustPoolsize(min(mn, new_max), new_max)
+            mx = new_max
+            for j in range(rng.choice([5, 20, 40])):
+                submit(("burst2", j), rng.choice(["ok", "raise", "yield", "oraise"]))
+            ctx.count("pool_second_bursts")
         stopper = threading.Thread(target=pool.stop, daemon=True)
         stopper.start()
         stopper.join(60)
@@ -643,6 +710,8 @@ def run_pool_case(ctx, case, inj_codes):
             ctx.violation("onresult-not-exactly-once", "onResult was called %d times for one task" % len(res), dict(wit, task=t, kind=kind))
             continue
         ok, value = res[0]
+        if kind in ("oraise", "obase"):
+            ctx.count("pool_onresult_raised")
         if kind == "raise":
             ctx.count("pool_tasks_failed_as_planned")
             good = ok is False and isinstance(value, Failure) and value.check(ValueError) and value.value.args == (t,)
